@@ -374,6 +374,7 @@ class TTCFG(
             Tuple[Type, Tuple[S, T]],
             Dict[DerivableProgram, Tuple[List[Tuple[Type, S]], T]],
         ] = {}
+        constants = {t: Constant.distinct_values(t, v) for t, v in constants.items()}
         for NT in self.rules:
             rules[NT] = {}
             for P in self.rules[NT]:
